@@ -2110,10 +2110,13 @@ class Library(Instance):
         unit_names = set()
 
         for entity in entities:
-            unit_name = entity.name().lower()
+            # compare the names the units are emitted under: a class name that
+            # is reserved is replaced (Buffer -> Buffer1) and may then collide
+            # with the name of another class
+            unit_name = entity.declared_name().lower()
             assert (
                 unit_name not in unit_names
-            ), f"two different entities are named '{entity.name()}' (VHDL names are not case sensitive)"
+            ), f"two different entities are named '{entity.declared_name()}' (VHDL names are not case sensitive)"
             unit_names.add(unit_name)
 
         return Library(
